@@ -15,6 +15,8 @@ uninterpreted; the control flow, the exceptions and the calls of send_response a
 """
 import asyncio
 
+from spec.att import ERR_REQUEST_NOT_SUPPORTED, REQUEST_OPCODES, answered, response_opcode
+
 from bumble import att, gatt_server, l2cap
 from bumble import core
 from pyvc.contracts import (Any, Bool, Bytes, Callback, Const, Inst, Int, IntRange, ListOf, OneOf, Opt, OrUnbound, TupleOf, bound, contract, implies,
@@ -265,3 +267,136 @@ for _name, _in_task, _req in HANDLERS:
         note=('@run_in_task: the coroutine body is verified; every exit must have replied' if _in_task else 'plain handler'),
         **LOOPS.get(_name, {}),
     )
+
+
+# ---------------------------------------------------------------------------
+# the generic handler, the confirmation handler
+# ---------------------------------------------------------------------------
+# every PDU class bumble registers gets a view; the ones without a specific handler need no field
+for _cls in att.ATT_PDU.pdu_classes.values():
+    if _cls.__name__ not in REQUEST_FIELDS:
+        model(f'bumble.att:{_cls.__name__}#c10', fields={})
+
+T_REQUEST = 'bumble.gatt_server:Server.on_att_request'
+REQUEST_KEYS = []
+for _cls in att.ATT_PDU.pdu_classes.values():
+    if _cls.op_code in att.ATT_REQUESTS and f'on_{_cls.name.lower()}' not in HANDLER_KEYS:
+        # a request bumble parses but has no handler for (Prepare / Execute Write): answered by the generic handler
+        REQUEST_KEYS.append(f'{T_REQUEST}@C10/{_cls.__name__}')
+        contract(
+            T_REQUEST,
+            key=f'{T_REQUEST}@C10/{_cls.__name__}',
+            prop='C10',
+            profile='skeleton',
+            params=dict(self=SERVER, bearer=BEARER, pdu=Inst(f'bumble.att:{_cls.__name__}#c10')),
+            ghost=GHOST,
+            ensures=lambda self, bearer, pdu, old, ghost: [
+                ghost.nresp == old.ghost.nresp + 1,
+                ghost.rop == ATT_ERROR_RESPONSE and ghost.rerr_op == pdu.op_code and ghost.rerr == ERR_REQUEST_NOT_SUPPORTED,
+                ghost.rbearer == bearer.g_id,
+            ],
+            ensures_names=['exactly-one-reply', 'error-request-not-supported-naming-the-request', 'to-the-asking-bearer'],
+            raises={},
+            modifies=MOD,
+        )
+
+
+def fut_set_result(ghost, value):
+    """asyncio.Future.set_result: InvalidStateError when the future is already done"""
+    if ghost.fut_done:
+        raise asyncio.InvalidStateError()
+    ghost.fut_done = True
+
+
+def pending_get(ghost, bearer):
+    """Server.pending_confirmations[bearer] (defaultdict: None when no indication is outstanding)"""
+    if ghost.has_pending:
+        return ghost.pending
+    return None
+
+
+model('ghost:Future', fields={}, methods={'set_result': Callback('set_result', effect=fut_set_result, raises=(asyncio.InvalidStateError,))})
+model('ghost:Pending', fields={}, methods={'__getitem__': Callback('__getitem__', effect=pending_get)})
+model('bumble.gatt_server:Server#c10p', fields=dict(pending_confirmations=Inst('ghost:Pending')), methods={'send_response': Callback('send_response', effect=rec_response)})
+CONF_GHOST = dict(GHOST, has_pending=Bool, pending=Inst('ghost:Future'), fut_done=Bool)
+
+
+def _native_pending(env):
+    import collections
+
+    env['self'].pending_confirmations = collections.defaultdict(lambda: None)
+    if env['ghost'].has_pending:
+        env['self'].pending_confirmations[env['bearer']] = env['ghost'].pending
+
+
+T_CONFIRM = 'bumble.gatt_server:Server.on_att_handle_value_confirmation'
+contract(
+    T_CONFIRM,
+    key=HANDLER_KEYS['on_att_handle_value_confirmation'],
+    prop='C10',
+    profile='skeleton',
+    params=dict(self=Inst('bumble.gatt_server:Server#c10p'), bearer=BEARER, confirmation=Inst('bumble.att:ATT_Handle_Value_Confirmation#c10')),
+    ghost=CONF_GHOST,
+    ensures=lambda self, bearer, old, ghost: [
+        ghost.nresp == old.ghost.nresp,
+        # the indication that was awaiting this confirmation is released
+        implies(ghost.has_pending, ghost.fut_done),
+    ],
+    ensures_names=['no-reply', 'pending-indication-released'],
+    # a confirmation is never answered: nothing may escape into on_gatt_pdu's catch-all, which would send an Error Response
+    raises={},
+    modifies=MOD + ['ghost.fut_done'],
+    native_setup=_native_pending,
+)
+
+
+# ---------------------------------------------------------------------------
+# dispatch: the whole opcode space
+# ---------------------------------------------------------------------------
+def all_pdus():
+    """one PDU per opcode octet 0..255: an instance (view) of the class bumble registers for it, or -- for an opcode
+    without a class -- the generic ATT_PDU that ATT_PDU.from_bytes really builds for that octet (native object)"""
+    import os
+
+    out = []
+    for op in range(256):
+        if os.environ.get('C10_ONLY_OP') and op != int(os.environ['C10_ONLY_OP'], 0):
+            continue  # debugging aid
+        cls = att.ATT_PDU.pdu_classes.get(op)
+        if cls is not None:
+            out.append(Inst(f'bumble.att:{cls.__name__}#c10'))
+        else:
+            out.append(att.ATT_PDU.from_bytes(bytes([op, 0x01, 0x00])))
+    return out
+
+
+def is_request(att_pdu):
+    """the statement's "request": the opcodes of Vol 3 Part F 3.4.8 that are requests (bumble's ATT_REQUESTS is
+    checked against that list below)"""
+    return att_pdu.op_code in REQUEST_OPCODES
+
+
+assert sorted(int(x) for x in att.ATT_REQUESTS) == sorted(REQUEST_OPCODES), 'bumble.att.ATT_REQUESTS differs from the specification'
+assert all(int(b) == response_opcode(int(a)) for a, b in zip(att.ATT_REQUESTS, att.ATT_RESPONSES[1:])), 'response opcode != request opcode + 1'
+
+T_DISPATCH = 'bumble.gatt_server:Server.on_gatt_pdu'
+contract(
+    T_DISPATCH,
+    prop='C10',
+    profile='skeleton',
+    params=dict(self=Inst('bumble.gatt_server:Server#c10', pending_confirmations=Inst('ghost:Pending')), bearer=BEARER, att_pdu=OneOf(*all_pdus())),
+    ghost=CONF_GHOST,
+    requires=lambda ghost: [ghost.nreads >= 0, ghost.nwrites >= 0, ghost.ngets >= 0],
+    ensures=lambda self, bearer, att_pdu, old, ghost: [
+        implies(is_request(att_pdu), ghost.nresp == old.ghost.nresp + 1 and answered(att_pdu.op_code, ghost.rop, ghost.rerr_op) and ghost.rbearer == bearer.g_id),
+        implies(not is_request(att_pdu), ghost.nresp == old.ghost.nresp),
+    ],
+    ensures_names=['request-answered-exactly-once', 'anything-else-not-answered'],
+    raises={},
+    modifies=MOD + ['ghost.fut_done'],
+    uses=list(HANDLER_KEYS.values()) + [k for k in REQUEST_KEYS],
+    inline=ERR_INLINE,
+    decorators_ok=RUN_IN_TASK,
+    native_setup=_native_pending,
+    note='handlers are applied through their contracts (for @run_in_task handlers: as if the task had run to completion)',
+)
